@@ -42,7 +42,7 @@ ASSUMPTIONS = ['preconditions of the statement: every column named in order_by/s
                'change of their key column (key converts differently, cell unchanged since the previous check) are '
                'reported under their own signatures (known_findings.d/C13.json); any other difference keeps a generic one']
 BUDGET = {'quick': dict(examples=2000, shards=16, max_seconds=50),
-          'thorough': dict(examples=36000, shards=16, max_seconds=560)}
+          'thorough': dict(examples=32000, shards=16, max_seconds=1800)}
 SHRINK_BUDGET = {'quick': 120, 'thorough': 400}
 
 KEYCOLS = [('KT', 'Text'), ('KI', 'Int'), ('KN', 'Numeric'), ('KB', 'Bool'), ('KD', 'Date'), ('KC', 'Choice'),
